@@ -101,7 +101,7 @@ ASSUMPTIONS["C10"] = ["architecture field holds a defined value (0 or 4), as the
 # ------------------------------------------------------------------ C13 ----
 PLANS["C13"] = dict(
     quick=[run("dev"), run("rel"), run("asan", procs=8), run("miri", procs=16, density=2, max_cases=2, timeout_s=900)],
-    thorough=[run("dev"), run("rel"), run("asan"), run("miri", procs=16, density=1, max_cases=12, timeout_s=3000)],
+    thorough=[run("dev"), run("rel"), run("asan"), run("miri", procs=16, density=1, max_cases=12, timeout_s=3000), run("fuzz", modes="2", secs=180)],
 )
 RULES["C13"] = ("buffer lengths: every 0..=96, 8150..=8230, 16340..=16400 and seed-chosen others <= 16 KiB; per length: no magic; magic at 0/4/8, at len-16..len, at 8180..=8196 and two random positions, "
                 "each with stored length in {0, 8, 16, rest-1, rest, rest+1, rest&~7, 2^31, 2^32-1}; two occurrences (misaligned then aligned and the reverse). Filler bytes cannot form the magic. "
@@ -196,7 +196,8 @@ PLANS["C01"] = dict(
            run("dev", driver="C01vbe", procs=1, timeout_s=120), run("rel", driver="C01vbe", procs=1, timeout_s=120)],
     thorough=[run("dev", max_cases=1500000, budget_s=600, timeout_s=3000), run("rel", max_cases=6000000, budget_s=600, timeout_s=3000), run("asan", max_cases=2000000, budget_s=600, timeout_s=3000),
               run("miri", procs=16, density=4096, budget_s=900, timeout_s=3000), run("miri-rel", procs=16, density=4096, budget_s=900, timeout_s=3000),
-              run("dev", driver="C01vbe", procs=1, timeout_s=120), run("rel", driver="C01vbe", procs=1, timeout_s=120), run("miri", driver="C01vbe", procs=1, timeout_s=300)],
+              run("dev", driver="C01vbe", procs=1, timeout_s=120), run("rel", driver="C01vbe", procs=1, timeout_s=120), run("miri", driver="C01vbe", procs=1, timeout_s=300),
+              run("fuzz", modes="0,3", secs=300)],
 )
 RULES["C01"] = ("cases: 2/3 boot informations — a spec-conformant region over all 22 kinds + custom types (harness' own encoder, byte-marked contents) that is kept (1/16), hit by 1..3 targeted corruptions of "
                 "total_size / tag sizes / count, stride, index and type fields with boundary values (12/16), blind-mutated (2/16) or fully random (1/16); region = exactly max(total_size, 8) bytes flush against a guard page "
@@ -213,7 +214,8 @@ PLANS["C09"] = dict(
     quick=[run("dev", procs=8, max_cases=150000, budget_s=30), run("rel", procs=8, max_cases=400000, budget_s=30), run("asan", procs=8, max_cases=150000, budget_s=30, timeout_s=900),
            run("miri", procs=16, density=4096, budget_s=50, timeout_s=900)],
     thorough=[run("dev", max_cases=1500000, budget_s=500, timeout_s=3000), run("rel", max_cases=6000000, budget_s=500, timeout_s=3000), run("asan", max_cases=2000000, budget_s=500, timeout_s=3000),
-              run("miri", procs=16, density=4096, budget_s=900, timeout_s=3000), run("miri-rel", procs=16, density=4096, budget_s=900, timeout_s=3000)],
+              run("miri", procs=16, density=4096, budget_s=900, timeout_s=3000), run("miri-rel", procs=16, density=4096, budget_s=900, timeout_s=3000),
+              run("fuzz", modes="1", secs=240)],
 )
 RULES["C09"] = ("cases: conformant header (11 kinds, defined enum values, 0..10 tags + end tag) kept (1/12), payload words randomised (1/12) or hit by 1..2 boundary-value corruptions of the header length / tag sizes (checksum recomputed so it still loads); "
                 "region = exactly max(length, 16) bytes; inputs where the walk would reach an undefined enum value are outside the property's premise and skipped (counted). If load() succeeds: accessors, full walk, 10 typed getters + accessors, "
